@@ -108,7 +108,7 @@ impl Case {
 
     pub fn parse(t: &[&str]) -> Option<Case> {
         let [op, q, qt, soa, rc, ans, nsecs] = t else { return None };
-        if *op != "vn" && *op != "cls" {
+        if *op != "vn" {
             return None;
         }
         let q = parse_name(q)?;
@@ -420,129 +420,13 @@ fn zone_str(z: &ZoneView) -> String {
 }
 
 // ------------------------------------------------------------------------------------------
-// finding classes (computed from the input; mirrored by decidable predicates in
-// lean/HickoryVerif/Spec/Denial.lean)
+// finding classes
 // ------------------------------------------------------------------------------------------
 
-fn strictly_below(anc: &Key, k: &Key) -> bool {
-    k.len() > anc.len() && is_prefix(anc, k)
-}
-
-fn lcp_len(a: &Key, bb: &Key) -> usize {
-    a.iter().zip(bb.iter()).take_while(|(x, y)| x == y).count()
-}
-
-fn covers(c: &Case, t: &Name, n: &NsecRec) -> bool {
-    *t > n.owner && (*t < n.next || c.soa.as_ref() == Some(&n.next))
-}
-
-fn find_covering<'a>(c: &'a Case, t: &Name) -> Option<&'a NsecRec> {
-    c.nsecs.iter().find(|n| covers(c, t, n))
-}
-
-/// the closest encloser the code arrives at on its covering path (its two-seed search)
-fn code_encloser(c: &Case, cov: &NsecRec) -> Name {
-    let mut nce = match &c.soa {
-        Some(s) => s.clone(),
-        None => c.q.base_name(),
-    };
-    for seed in [&cov.owner, &cov.next] {
-        let mut cand = seed.clone();
-        while cand.num_labels() > nce.num_labels() {
-            if cand.zone_of(&c.q) {
-                nce = cand;
-                break;
-            }
-            cand = cand.base_name();
-        }
-    }
-    nce
-}
-
-/// the code's `wildcard_base_name` for a response with answers
-fn code_wildcard_base(c: &Case) -> Option<Name> {
-    let mut best: Option<(u8, Name)> = None;
-    for a in &c.answers {
-        let Some(l) = a.rrsig_labels else { continue };
-        if !a.secure || l >= a.name.num_labels() || l >= c.q.num_labels() {
-            continue;
-        }
-        let trimmed = a.name.trim_to(l as usize);
-        if !trimmed.zone_of(&c.q) {
-            continue;
-        }
-        let Ok(w) = trimmed.prepend_label("*") else { continue };
-        if best.as_ref().is_none_or(|(bl, _)| l < *bl) {
-            best = Some((l, w));
-        }
-    }
-    best.map(|x| x.1)
-}
-
-/// Narrow class of a known deviation, computed from the case alone; mirrors `Nsec.classify`
-/// of lean/HickoryVerif/Model/Nsec.lean (compared on every run through the `cls` lines).
-pub fn classify(c: &Case) -> &'static str {
-    if c.rcode != 3 && c.rcode != 0 {
-        return "";
-    }
-    let kq = key(&c.q);
-    if let Some(n) = c.nsecs.iter().find(|n| c.q == n.owner) {
-        if is_delegation_nsec(&n.types) && c.qtype != T_DS {
-            return "ancestor-delegation-nsec-nodata-for-non-ds-type";
-        }
-        if c.qtype == T_NSEC || c.qtype == T_RRSIG {
-            return "nsec-rrsig-bits-not-ignored";
-        }
-        return "";
-    }
-    let Some(cov) = find_covering(c, &c.q) else { return "" };
-    let (ko, kn) = (key(&cov.owner), key(&cov.next));
-    if is_delegation_nsec(&cov.types) && strictly_below(&ko, &kq) {
-        return "ancestor-delegation-nsec-used-below-cut";
-    }
-    if !c.answers.is_empty() {
-        if strictly_below(&kq, &kn) {
-            return "wildcard-answer-for-empty-non-terminal";
-        }
-        if let Some(wbn) = code_wildcard_base(c) {
-            if lcp_len(&kq, &ko).max(lcp_len(&kq, &kn)) > wbn.num_labels() as usize {
-                return "wildcard-answer-closer-encloser-not-excluded";
-            }
-        }
-        return "";
-    }
-    let nce = code_encloser(c, cov);
-    let kc = key(&nce);
-    if c.soa.is_none() && kc == key(&c.q.base_name()) && !is_prefix(&kc, &ko) && !is_prefix(&kc, &kn) {
-        return "no-soa-closest-encloser-assumed";
-    }
-    let Ok(w) = nce.prepend_label("*") else { return "" };
-    let kw = key(&w);
-    if c.rcode == 3 {
-        if strictly_below(&kq, &kn) {
-            return "nxdomain-for-empty-non-terminal";
-        }
-        let Some(wc) = find_covering(c, &w) else { return "" };
-        if is_delegation_nsec(&wc.types) && strictly_below(&key(&wc.owner), &kw) {
-            return "ancestor-delegation-nsec-used-below-cut";
-        }
-        if strictly_below(&kw, &key(&wc.next)) {
-            return "nxdomain-with-empty-non-terminal-wildcard";
-        }
-        return "";
-    }
-    if find_covering(c, &w).is_some() {
-        return "";
-    }
-    if is_prefix(&kw, &kq) {
-        return "closest-encloser-search-discounts-wildcard-label";
-    }
-    if c.qtype != T_DS && c.nsecs.iter().any(|n| n.owner == w && is_delegation_nsec(&n.types)) {
-        return "ancestor-delegation-nsec-nodata-for-non-ds-type";
-    }
-    if c.qtype == T_RRSIG || c.qtype == T_NSEC {
-        return "nsec-rrsig-bits-not-ignored";
-    }
+/// Class of a known soundness deviation, computed from the case alone.  The nine classes found
+/// when this check was built (C08-F1a … C08-F6) were all repaired in /repo; none is open, so every
+/// soundness failure is an ordinary violation.
+pub fn classify(_c: &Case) -> &'static str {
     ""
 }
 
@@ -560,12 +444,6 @@ pub fn exec(line: &str, rec: &mut Recorder) {
         rec.stat("skipped.unparsable-case");
         return;
     };
-    if t[0] == "cls" {
-        let cls = classify(&c);
-        rec.case(line.to_string(), if cls.is_empty() { "-".to_string() } else { cls.to_string() });
-        rec.stat("op.cls");
-        return;
-    }
     match catch(|| run_impl(&c)) {
         Ok(p) => {
             let idx = rec.case(line.to_string(), proof_str(p).to_string());
@@ -590,12 +468,6 @@ pub fn exec(line: &str, rec: &mut Recorder) {
                 rec.nontrivial(idx);
             }
             let cls = classify(&c);
-            if p == Proof::Secure || !cls.is_empty() {
-                // tie the class predicate of the harness to its Lean mirror
-                let cl = format!("cls{}", &line[2..]);
-                rec.case(cl, if cls.is_empty() { "-".to_string() } else { cls.to_string() });
-                rec.stat("op.cls");
-            }
             if p == Proof::Secure {
                 if let Some(Some(z)) = f {
                     rec.stat(&format!("unsound.{}", if cls.is_empty() { "unclassified" } else { cls }));
